@@ -26,6 +26,8 @@ import (
 	db "github.com/oasisprotocol/oasis-core/go/storage/mkvs/db/api"
 	badgerDb "github.com/oasisprotocol/oasis-core/go/storage/mkvs/db/badger"
 	pathBadgerDb "github.com/oasisprotocol/oasis-core/go/storage/mkvs/db/pathbadger"
+	"github.com/oasisprotocol/oasis-core/go/storage/mkvs/node"
+	"github.com/oasisprotocol/oasis-core/go/storage/mkvs/writelog"
 
 	"verifharness/internal/coqout"
 	"verifharness/internal/prng"
@@ -278,6 +280,60 @@ func (s *sigState) snapshot(tree mkvs.Tree) {
 	s.scan(tree)
 	s.failed, s.failF1, s.failF2, s.failDepth = true, s.f1, s.f2, s.maxDepth
 }
+
+// scanningWL scans the tree between the entries of an applied write log.
+type scanningWL struct {
+	inner writelog.Iterator
+	scan  func()
+}
+
+func (s *scanningWL) Next() (bool, error)               { s.scan(); return s.inner.Next() }
+func (s *scanningWL) Value() (writelog.LogEntry, error) { return s.inner.Value() }
+
+// scanTree forwards to the tree and scans it after every call, so that the
+// calls an overlay makes on the tree (Commit, Get, iterators) are covered at
+// the granularity of single tree operations.
+type scanTree struct {
+	mkvs.Tree
+	scan func()
+}
+
+func (s *scanTree) Insert(ctx context.Context, k, v []byte) error {
+	err := s.Tree.Insert(ctx, k, v)
+	s.scan()
+	return err
+}
+
+func (s *scanTree) Remove(ctx context.Context, k []byte) error {
+	err := s.Tree.Remove(ctx, k)
+	s.scan()
+	return err
+}
+
+func (s *scanTree) RemoveExisting(ctx context.Context, k []byte) ([]byte, error) {
+	v, err := s.Tree.RemoveExisting(ctx, k)
+	s.scan()
+	return v, err
+}
+
+func (s *scanTree) Get(ctx context.Context, k []byte) ([]byte, error) {
+	v, err := s.Tree.Get(ctx, k)
+	s.scan()
+	return v, err
+}
+
+func (s *scanTree) NewIterator(ctx context.Context, options ...mkvs.IteratorOption) mkvs.Iterator {
+	return &scanIter{Iterator: s.Tree.NewIterator(ctx, options...), scan: s.scan}
+}
+
+type scanIter struct {
+	mkvs.Iterator
+	scan func()
+}
+
+func (s *scanIter) Rewind()         { s.Iterator.Rewind(); s.scan() }
+func (s *scanIter) Seek(k node.Key) { s.Iterator.Seek(k); s.scan() }
+func (s *scanIter) Next()           { s.Iterator.Next(); s.scan() }
 
 func keyBit(k []byte, i int) bool { return k[i/8]&(1<<(7-uint(i%8))) != 0 }
 
@@ -565,7 +621,17 @@ func genConfig(r *prng.R, c *Case) {
 }
 
 func evicting(c Case) bool {
-	return c.isDB() && ((c.NodeCap >= 1 && c.NodeCap <= 3) || (c.ValueCap >= 1 && c.ValueCap <= 64))
+	return c.isDB() && ((c.NodeCap >= 1 && c.NodeCap <= 32) || (c.ValueCap >= 1 && c.ValueCap <= 64))
+}
+
+// longHistory decides whether the case gets a long history biased toward
+// inserts of new keys: with node capacity 16/32 or a small value capacity the
+// number of cached nodes / value bytes then regularly exceeds the capacity
+// while the path depth stays below it (eviction that has to work). About 45%
+// of the eligible cases, i.e. roughly 20% of all cases.
+func longHistory(r *prng.R, c Case) bool {
+	eligible := c.isDB() && (c.NodeCap == 16 || c.NodeCap == 32 || (c.ValueCap >= 1 && c.ValueCap <= 64))
+	return eligible && r.Chance(45)
 }
 
 // keygen produces keys and values; it remembers the keys of this history.
@@ -622,6 +688,20 @@ func (g *keygen) key() []byte {
 		return g.used[g.r.Intn(len(g.used))]
 	}
 	return g.note(g.short())
+}
+
+// newKey returns a key not used in this history yet.
+func (g *keygen) newKey() []byte {
+	for i := 0; i < 40; i++ {
+		k := g.short()
+		if i >= 10 || g.r.Chance(10) {
+			k = append(k, g.r.Bytes(g.r.Range(1, 3))...)
+		}
+		if !g.set[string(k)] {
+			return g.note(k)
+		}
+	}
+	return g.note(append(g.short(), g.r.Bytes(8)...))
 }
 
 func (g *keygen) val() []byte {
